@@ -183,6 +183,12 @@ def run(replay=None):
         'lookups at coordinates the model finds in-domain, in both at(vector) and at(scalars...) form, must equal the reference interpreter eval (theorem C02_eval_cons: eval of a stack is its outermost layer applied to eval of the rest). '
         'Moved values compare bit-exactly; values computed in floating point compare bit-exactly with the Flocq evaluation in the code\'s operation order. '
         'A case = (stack, field tokens, coordinate); non-trivial = the model finds it in-domain; distinct by those.')
+    with core.Lock('coq'):
+        rep, tlog = core.translate()
+    for u in rep['untranslatable']:
+        if u['group'] == 'Packs':
+            chk.obligation_broken('translation of ' + u['name'], u['why'])
+    chk.cov['pack_layers_in_source'] = rep.get('packs')
     chk.prove('Properties_C02.v')
     r = chk.rng
     probes = layer_probe_stacks(thorough)
